@@ -222,12 +222,12 @@ func RunDriver(o DriverOpts) int {
 				wr.sum = wr.checkpoint // what it had measured up to its last progress mark
 				mu.Lock()
 				triages++
-				tooMany := triages > 6
+				tooMany := triages > 12
 				mu.Unlock()
 				if tooMany {
-					// every triage costs up to a minute; after six the picture is clear
+					// every triage costs up to a minute; after twelve the picture is clear
 					mu.Lock()
-					excepted.Inc("worker_deaths_not_triaged_after_six")
+					excepted.Inc("worker_deaths_not_triaged_after_twelve")
 					mu.Unlock()
 					return
 				}
